@@ -60,6 +60,7 @@ FLOORS = {
     'calls_cancelled': 100,
     'nested_calls': 200,
     'online_calls': 100,
+    'online_failure_bursts_judged': 20,
     'cases_max_working_eq_P': 200,
 }
 
@@ -678,6 +679,11 @@ def judge_online(run, rec, where, fails):
             out.append(('raise/foreign-exception', f'{where}: raised {e!r} which neither a body nor the with-block raised'))
         elif own[0][0] != cands[0][0]:
             out.append(('raise/not-first-failure', f'{where}: raised {e!r} (t={own[0][0]}) but {cands[0][2]!r} came first (t={cands[0][0]})'))
+        elif cands[0][2] is not e and ctx is None:
+            # several bodies failed at the same instant: the pool raises the one that was raised first (event order within the instant)
+            out.append(('raise/not-first-failure-within-burst', f'{where}: raised {e!r} (event #{own[0][1]}) but {cands[0][2]!r} was raised first at the same instant t={cands[0][0]} (event #{cands[0][1]})'))
+        if len([c for c in cands if c[0] == cands[0][0]]) > 1:
+            run.bursts = getattr(run, 'bursts', 0) + 1
         if rec.shutdown_error_ok is False:
             out.append(('online/call-after-shutdown-accepted', f'{where}: pool.call() after the failure did not raise PoolShutdownError'))
     elif isinstance(e, asyncio.CancelledError):
@@ -772,6 +778,7 @@ def run(ctx):
             )
             ctx.count('bodies_entered', n_entered)
             ctx.count('events', len(r.events))
+            ctx.count('online_failure_bursts_judged', getattr(r, 'bursts', 0))
             ctx.count('cancelled_errors_born_inside_partial_functions', r.self_cancels)
             if r.max_working == r.P:
                 ctx.count('cases_max_working_eq_P')
